@@ -22,6 +22,12 @@ let part1 op ps args =
     let eo = function Some r -> elt r | None -> "NONE" in
     (match op with
      | "ctor.p" | "ctor.copy" | "ctor.assign" -> fields f
+     | "assign.use" | "copy.use" ->
+       let u = Model.init_uint32 f a.(0) in
+       (match Model.inv f u, Model.div32 f u a.(1) with
+        | Some i, Some d -> let w = Model.addin f (Model.mulin f i u) u in
+          s w ^ " " ^ s (Model.convert f w) ^ " " ^ s d ^ " " ^ s (Model.convert f d)
+        | _ -> "NONE")
      | "redc" -> s (Model.redc f a.(0)) | "redcal" -> s (Model.redcal f a.(0))
      | "redcsal" -> s (Model.redcsal f a.(0)) | "redcs" -> s (Model.redcs f a.(0))
      | "redcin" -> s (Model.redcin f a.(0)) | "redcsin" -> s (Model.redcsin f a.(0))
